@@ -51,6 +51,14 @@ def run(tier: str) -> int:
         items.append(("src_vs_ic10", sp))
     for pname, psrc in probes.all_probes():
         items.append(("src_vs_ic10", dict(name=f"probe:{pname}", sources=psrc, tier=tier, timeout=60, features=["probe:" + pname.split(":")[0]])))
+    # register pressure at the edge of the register file: a program the compiler accepts must load
+    # (r0-r15 only) and behave like its source; 17 live values must be rejected
+    from . import c04
+
+    for k in (15, 16, 17):
+        for inf in (False, True):
+            items.append(("src_vs_ic10", dict(name=f"probe:pressure:{k}:{'f' if inf else 'm'}", sources=c04.edge_program(k, inf), tier=tier, timeout=60,
+                                              opts={"inline_functions": False}, must_load=True, features=["probe:pressure"])))
     for sp in base.witness_specs(WITNESSES, tier):
         sp["strict"] = True
         items.append(("src_vs_ic10", sp))
@@ -70,7 +78,7 @@ def run(tier: str) -> int:
             repo_res.append(r)
         if r["status"] == "harness_error":
             rep.harness_errors.append(f"{spec['name']}: {r.get('detail')}")
-        bad = r["status"] == "divergence" or (r["status"] == "load_error" and spec["name"].startswith("witness:"))
+        bad = r["status"] == "divergence" or (r["status"] == "load_error" and (spec["name"].startswith("witness:") or spec.get("must_load")))
         if not bad:
             continue
         k = None
